@@ -118,6 +118,8 @@ class Prog:
       return 'cv'
     if r < 0.65 and self.vars['list']:
       return rng.choice(self.vars['list'])
+    if r < 0.72 and self.vars['partial']:
+      return rng.choice(self.vars['partial'])      # the partial object itself, also after being extended
     return self.literal()
 
   def call(self, depth):
@@ -309,8 +311,12 @@ def make_module(rng, modname):
     elif kind == 'closure':
       p.build()
       body = '\n'.join('    ' + l for l in p.lines)
+      rebind = "  cv = [cv, 'rebound after decoration']\n" if rng.random() < 0.5 else ''
+      if rebind:
+        p.constructs.add('closure-rebound')
       src.append(f'def make_{name}(cv):\n  def raw_{name}({p.params_text()}):\n{body}\n'
                  f'  @{deco}\n  def {name}({p.params_text()}):\n{body}\n'
+                 f'{rebind}'
                  f'  return raw_{name}, {name}\n\n'
                  f'raw_{name}, {name} = make_{name}({rng.choice(["K.Base(x=99)", "[1, 2]", "41"])})\n\n')
       p.callname, p.rawname = name, f'raw_{name}'
